@@ -225,9 +225,15 @@ class World(object):
             from behave.api.async_step import async_run_until_complete
             w = self
 
-            @async_run_until_complete
-            async def async_stepfn(context, src):
-                return w._stepfn(context, src)
+            if o.get("async_steps") == "timeout":
+                # the call form of the decorator, with a (generous) timeout
+                @async_run_until_complete(timeout=30.0)
+                async def async_stepfn(context, src):
+                    return w._stepfn(context, src)
+            else:
+                @async_run_until_complete
+                async def async_stepfn(context, src):
+                    return w._stepfn(context, src)
             stepfn = async_stepfn
         pattern = u"do {src}"
         if o.get("converr"):
